@@ -6,7 +6,7 @@
 From Coq Require Import String List ZArith Bool.
 Import ListNotations.
 Require Import Model.Base Model.Ante Model.Validate.
-Require Import Extracted.ExtractedCensus.
+Require Import Extracted.ExtractedCensus Extracted.ExtractedSource.
 Open Scope string_scope.
 
 (* ---- C01 / C18: the services ---- *)
@@ -102,3 +102,22 @@ Definition resolve (s : admin_source) : string :=
 Theorem tie_admin_resolution :
   x_admin_resolution = ["default=" ++ resolve SrcDefault; "config=" ++ resolve SrcConfig; "env=" ++ resolve SrcEnv; "env+config=" ++ resolve SrcEnvAndConfig].
 Proof. vm_compute. reflexivity. Qed.
+
+(* ---- C12 (and C06): where process-local state or non-determinism could enter, read off the source files ----
+   every struct type of the keeper, module and ante packages with its fields (a memo, a cache or a mutex in the keeper,
+   the message server, the query server or a decorator shows up here); no package-level variable that can hold mutable
+   state; no use of wall-clock time, randomness, goroutines, select, sync, unsafe or runtime; the OS environment is read
+   in exactly two places, both when the keeper is built / the admin is checked (C01: the admin override and the
+   simulation-only bypass) *)
+Theorem tie_source_census :
+  x_src_structs =
+    ["keeper.Keeper{cdc:codec.BinaryCodec,stakingKeeper:StakingKeeper,accountKeeper:AccountKeeper,slashKeeper:SlashingKeeper,bankKeeper:BankKeeper,logger:log.Logger,Schema:collections.Schema,PendingValidators:collections.Item[poa.Validators],UpdatedValidatorsCache:collections.KeySet[string],CachedBlockPower:collections.Item[poa.PowerCache],AbsoluteChangedInBlockPower:collections.Item[poa.PowerCache],authority:string}";
+     "keeper.msgServer{k:Keeper}"; "keeper.queryServer{k:Keeper}";
+     "module.AppModule{cdc:codec.Codec,keeper:keeper.Keeper}";
+     "module.ModuleInputs{depinject.In,Cdc:codec.Codec,Config:*modulev1.Module,StoreService:store.KVStoreService,AddressCodec:address.Codec,StakingKeeper:keeper.StakingKeeper,SlashingKeeper:keeper.SlashingKeeper,BankKeeper:keeper.BankKeeper,AccountKeeper:keeper.AccountKeeper}";
+     "module.ModuleOutputs{depinject.Out,Module:appmodule.AppModule,Keeper:keeper.Keeper}";
+     "poaante.CommissionLimitDecorator{DoGenTxRateValidation:bool,RateFloor:math.LegacyDec,RateCeil:math.LegacyDec}";
+     "poaante.MsgDisableWithdrawDelegatorRewards{}"; "poaante.MsgStakingFilterDecorator{}"] /\
+  x_src_mutable_globals = [] /\
+  x_src_nondeterminism = ["keeper/keeper.go:os.Getenv(POA_ADMIN_ADDRESS)"; "keeper/keeper.go:os.Getenv(POA_BYPASS_ADMIN_CHECK_FOR_SIMULATION_TESTING_ONLY)"].
+Proof. vm_compute. repeat split; reflexivity. Qed.
